@@ -98,46 +98,60 @@ func runCheck(prop, tier string, seed int) (exit int) {
 			c.Functions[fnName(fn)] = "trusted contract (assumed)"
 			continue
 		}
-		wg.Add(1)
-		go func() {
-			defer wg.Done()
-			sem <- struct{}{}
-			defer func() { <-sem }()
-			x := NewExec(w)
-			res := x.VerifyFn(fn, fc)
-			mu.Lock()
-			defer mu.Unlock()
-			if res.Undecided != "" {
-				c.Undecided = append(c.Undecided, res.Fn+": "+res.Undecided)
-			}
-			all = append(all, res.Obligs...)
-			how := "under contract"
-			if fc.Lemma {
-				how = "lemma"
-			}
-			c.Functions[res.Fn] = how
-			for f := range x.Inlined {
-				if _, ok := c.Functions[f]; !ok {
-					c.Functions[f] = "summarised (inlined into callers' obligations)"
+		ops := []int{-1}
+		if fc.Harness != "" && fc.HArgs["op"] != "" {
+			ops = opList(os.Getenv("SNESVC_OPS"))
+		}
+		for _, op := range ops {
+			op := op
+			wg.Add(1)
+			go func() {
+				defer wg.Done()
+				sem <- struct{}{}
+				defer func() { <-sem }()
+				x := NewExec(w)
+				x.NoSafety = fc.NoSafety
+				res := x.VerifyJob(fn, fc, op)
+				c.Discharge(res.Obligs, res.Fn)
+				mu.Lock()
+				defer mu.Unlock()
+				if res.Undecided != "" {
+					c.Undecided = append(c.Undecided, fmt.Sprintf("%s@op=%02X: %s", res.Fn, op, res.Undecided))
 				}
-			}
-			for f := range x.Modular {
-				if c.Functions[f] == "" || strings.HasPrefix(c.Functions[f], "summarised") {
-					c.Functions[f] = "used through its contract at call sites"
+				how := "under contract"
+				if fc.Lemma {
+					how = "lemma"
 				}
-			}
-			for t, n := range x.Trusted {
-				c.Trusted[t] += n
-			}
-			for k, n := range x.Stats {
-				if strings.HasPrefix(k, "global_store") {
-					c.Notes = append(c.Notes, fmt.Sprintf("store to package-level state outside init: %s (%d)", k, n))
+				c.Functions[res.Fn] = how
+				for f := range x.Inlined {
+					if _, ok := c.Functions[f]; !ok {
+						c.Functions[f] = "summarised (inlined into callers' obligations)"
+					}
 				}
-			}
-		}()
+				for f := range x.Modular {
+					if c.Functions[f] == "" || strings.HasPrefix(c.Functions[f], "summarised") {
+						c.Functions[f] = "used through its contract at call sites"
+					}
+				}
+				for t, n := range x.Trusted {
+					c.Trusted[t] += n
+				}
+				for k, n := range x.Stats {
+					if strings.HasPrefix(k, "global_store") {
+						c.Notes = append(c.Notes, fmt.Sprintf("store to package-level state outside init: %s (%d)", k, n))
+					}
+				}
+				if fc.NoSafety {
+					c.noSafety = true
+				}
+			}()
+		}
 	}
 	wg.Wait()
-	c.Discharge(all, prop)
+	_ = all
+	if c.noSafety {
+		c.Assump = append(c.Assump, "lemmas marked nosafety assume that the real code does not panic at runtime on the lemma's inputs; that is the subject of property C08 (StepSafe*), not re-proved here")
+	}
 	if d, ok := drivers[prop]; ok {
 		d(w, c)
 	}
